@@ -1050,7 +1050,7 @@ read_mtree(struct archive_read *a, struct mtree *mtree)
 
 	for (counter = 1; ; ++counter) {
 		r = ARCHIVE_OK;
-		len = readline(a, mtree, &p, 65536);
+		len = readline(a, mtree, &p, MAX_LINE_LEN);
 		if (len == 0) {
 			mtree->this_entry = mtree->entries;
 			free_options(global);
